@@ -9,7 +9,7 @@ ES and W are those of the type whose decoder produced the value.  Any other use 
 """
 import re
 
-from interp import Interp, Frame
+from interp import Interp, Frame, short_fn
 
 DECODERS = {
     # type path prefix -> es
@@ -177,7 +177,7 @@ class Units:
             _, base, es, w = ta
             ok = (c == w - 1 - es)
             if record:
-                self.instances.append(('L1', ok, 'decoded word of %s (es=%d, %d-bit) shifted right by %d to extract the exponent, expected %d' % (base, es, w, c, w - 1 - es), span))
+                self.instances.append(('L1:>>%d' % c, ok, 'decoded word of %s (es=%d, %d-bit) shifted right by %d to extract the exponent, expected %d' % (base, es, w, c, w - 1 - es), span))
             return ('EXP', base, es)
         if op == 'Shl' and ta and ta[0] == 'REGIME':
             c = self.const_val(rv['b'])
@@ -208,7 +208,7 @@ class Units:
                 rs = ta if ta[0] == 'RSCALED' else tb
                 ok = rs[3] == rs[2]
                 if record:
-                    self.instances.append(('L2', ok, 'regime of %s (es=%d) scaled by << %d and combined with an exponent field, expected << %d' % (rs[1], rs[2], rs[3], rs[2]), span))
+                    self.instances.append(('L2:<<%d' % rs[3], ok, 'regime of %s (es=%d) scaled by << %d and combined with an exponent field, expected << %d' % (rs[1], rs[2], rs[3], rs[2]), span))
                 return ('SCALE', rs[1], rs[2])
             if kinds[0] == 'SCALE' and kinds[1] in ('EXP', 'SCALE'):
                 return ta
@@ -237,21 +237,18 @@ def check_units(ctx, prog, types=None, gvals=(8, 16, 32)):
             continue
         gens = [g['name'] for g in body.get('generics', []) if g['kind'] == 'const']
         envs = [dict((g, v) for g in gens) for v in gvals] if gens else [{}]
-        bad = {}    # (kind, ordinal) -> list of (N, detail, span)
+        bad = {}    # kind (rule + the offending constant) -> list of (N, detail, span); line- and order-free
         for genv in envs:
             u = Units(prog, body, genv)
-            ords = {}
             for kind, ok, detail, span in u.run():
                 total += 1
-                o = ords.get(kind, 0)
-                ords[kind] = o + 1
                 if not ok:
-                    bad.setdefault((kind, o), []).append((genv.get('N'), detail, span))
+                    bad.setdefault(kind, []).append((genv.get('N'), detail, span))
                 else:
                     ctx.sample({'rule': 'R8-' + kind, 'fn': path, 'detail': detail}, limit=6)
-        for (kind, o), lst in sorted(bad.items()):
-            nl = [str(x[0]) for x in lst if x[0] is not None]
+        for kind, lst in sorted(bad.items()):
+            nl = sorted({str(x[0]) for x in lst if x[0] is not None})
             detail = lst[0][1]
-            ctx.finding('R8', path, '%s#%d' % (kind, o), '%s: %s%s' % (path, detail, (' (for N = %s)' % ','.join(nl)) if nl else ''),
+            ctx.finding('R8', short_fn(path), kind, '%s: %s%s' % (path, detail, (' (for N = %s)' % ','.join(nl)) if nl else ''),
                         {'function': path, 'span': lst[0][2], 'N': nl})
     return total
